@@ -117,6 +117,15 @@ type icRun struct {
 
 var errLoad = errors.New("load failed")
 
+func (c *icCfg) planHas(out string) bool {
+	for _, o := range c.LoadPlan {
+		if o == out {
+			return true
+		}
+	}
+	return false
+}
+
 func (r *icRun) tick() int { r.clock++; return r.clock }
 
 func (r *icRun) loader(client *int) func(k int) (Loaded[int], error) {
@@ -140,6 +149,8 @@ func (r *icRun) loader(client *int) func(k int) (Loaded[int], error) {
 			return Loaded[int]{}, errLoad
 		case "panic":
 			panic("loader panic")
+		case "panicnil":
+			panic(nil)
 		case "exit":
 			runtime.Goexit()
 		}
@@ -174,7 +185,7 @@ func (r *icRun) do(client int, op icOp, nextV *int) *icCall {
 				}
 				c.Panicked = true
 				c.Err = firstLine(fmt.Sprint(rec))
-				if !strings.Contains(c.Err, "loader panic") {
+				if !strings.Contains(c.Err, "loader panic") && !(strings.Contains(c.Err, "nil") && r.cfg.planHas("panicnil")) {
 					panic(rec) // not the scripted loader panic: a real crash
 				}
 			} else {
